@@ -21,7 +21,7 @@ Proof.
   - destruct p; cbn in H.
     + destruct cn; inversion H; subst; cbn; repeat split; auto; lia.
     + destruct r; inversion H; subst; cbn; repeat split; auto; lia.
-    + destruct ln as [l|]; [destruct (tk <=? l)|]; inversion H; subst; cbn; repeat split; auto; lia.
+    + destruct ln as [l|]; [destruct (tk <=? l); [destruct (l - tk <? max_overdue_ns)|]|]; inversion H; subst; cbn; repeat split; auto; lia.
     + destruct cn; [destruct ((tk <=? ck) && negb pc)|destruct (tk <=? ck)]; inversion H; subst; cbn;
         repeat split; auto; lia.
     + destruct ((length st =? 0)%nat && fail); inversion H; subst; cbn; repeat split; auto; lia.
